@@ -515,9 +515,11 @@ def oracle_C01(inp, out):
                 if res != 0:
                     return "re-import of exported words failed"
             elif op == 4:
-                if first_words is None:
+                if pending:
+                    pass            # only exports taken with every push popped are comparable
+                elif first_words is None:
                     first_words = res
-                elif not pending and res != first_words:
+                elif res != first_words:
                     return "exported words differ after all pushes were popped"
     except (IndexError, ValueError):
         return "malformed output"
